@@ -25,9 +25,9 @@ pub fn run(args: &Args) -> Out {
         Some((v["replay"]["seed"].as_u64()?, v["replay"]["case"].as_u64()? as usize, v["replay"]["thorough"].as_bool().unwrap_or(false)))
     });
     let (n_q, n_t) = match leg.as_str() {
-        "histories" => (3200, 32_000),
-        "corruption" => (320, 3200),
-        _ => (16_000, 320_000),
+        "histories" => (16_000, 64_000),
+        "corruption" => (1280, 6400),
+        _ => (160_000, 640_000),
     };
     let f: fn(u64, usize, bool, &mut Out) = match leg.as_str() {
         "histories" => history_case,
